@@ -367,7 +367,7 @@ class Session:
     def __init__(self, bdir, seed=1, relay=None, nclients=1, qtype="NULL", downenc=None, lazy=1,
                  maxlen=None, fragsize=None, raw=False, interval=None, server_args=(), netbits=24,
                  password=PASSWORD, domain=DOMAIN, tag="s", client_pw=None, dump_users=False,
-                 server_domain=None, occupy=0):
+                 server_domain=None, occupy=0, prior=False):
         self.relay = relay or Relay(seed)
         self.w = W.World(bdir, seed=seed, policy=self.relay, tag=tag)
         self.w.dump_users = dump_users
@@ -385,6 +385,8 @@ class Session:
                            (W.SERVER_IP, 53))
         if occupy:
             self.w.run_until(t=self.w.now + 5000)
+        if prior:
+            self._prior_session(password, domain)
         self.clients = []
         self.cfg = dict(qtype=qtype, downenc=downenc, lazy=lazy, maxlen=maxlen, fragsize=fragsize,
                         raw=raw, interval=interval)
@@ -408,6 +410,33 @@ class Session:
             name = "C%d" % k
             self.w.spawn(name, name, cargs)
             self.clients.append(name)
+
+    def _prior_session(self, password, domain):
+        """An earlier tenant of slot 0: a peer on a clean path opens a session, logs in, switches to Base128 upstream,
+        Base128 downstream, immediate mode and a large fragment size - and is then never heard of again.  65 s later the
+        slot is free for the run's own client, which must start from the protocol defaults."""
+        w = self.w
+        src = ("10.9.4.1", 5454)
+        got = []
+        w.endpoints[src] = lambda wd, serial, s_, d_, data: got.append(data)
+
+        def ask(name, qid):
+            del got[:]
+            w._arrive(0, D.build_query(qid, proto.qname(name, domain), D.T_NULL, edns=False), src, (W.SERVER_IP, 53))
+            w.run_until(t=w.now + 5000)
+            return proto.decode_answer(D.parse(got[-1])) if got else None
+        pl = ask(proto.q_version(9000), 9000)
+        if not pl or pl[:4] != b"VACK" or len(pl) < 9:
+            return
+        seed = int.from_bytes(pl[4:8], "big", signed=True)
+        uid = pl[8]
+        ask(proto.q_login(uid, proto.login_hash(password.encode(), seed), 9001), 9001)
+        ask(proto.q_switch_codec(uid, 7, 9002), 9002)
+        ask(proto.q_option(uid, "v", 9003), 9003)
+        ask(proto.q_option(uid, "i", 9004), 9004)
+        ask(proto.q_setfrag(uid, 1150, 9005), 9005)
+        ask(proto.q_ping(uid, 0, 0, 9006), 9006)
+        w.run_until(t=w.now + 65_000_000)
 
     def handshake_done(self, name):
         """The client prints nothing we can see; it is in the tunnel loop when it selects on tun."""
